@@ -11,13 +11,17 @@
   C18.C  conversions fail loudly: in the crate's `TryFrom<Value>` impls (the types a host function can declare as parameters),
          the result of a nested conversion is propagated (`?`, map_err) - never turned into a default with .ok() /
          unwrap_or*, which would run the host function with nil / a default instead of rejecting the argument.
+  C18.H  (= C14.B, shared) nobody sets the height of the value stack to a value of its own making: every caller of
+         clear_until passes a call frame's stack_offset - in particular run_function does not "restore" the height it
+         saw on entry (which still counts the arguments the callee's Return consumed).
   C18.N  reserved names: every public way to register a native rejects names starting with `__`.
   C18.B  re-entry is frame-balanced: run_function pushes two frames, pops one itself (the callee's Return pops the
          other), and the trap frame returns to the final Exit instruction.
 """
 import re
 from cao.facts import (AnchorMissing, callee_names, short, op_local, op_place, DefUse, hir_walk, hir_callee, hir_strip, hir_local_id)
-from cao.rules import Rule, ok, bad, undecided, note
+from cao.rules import Rule, ok, bad, undecided, note, shared
+import rules.c14 as _c14
 from cao import mirutil as mu
 from cao import hirutil as hu
 
@@ -365,6 +369,7 @@ RULES = [
     Rule("C18.O", rule_o, 14, "positional wiring of the native wrappers"),
     Rule("C18.W", rule_w, 3, "host errors are wrapped with the procedure name; result pushed"),
     Rule("C18.C", rule_c, 5, "nested conversions of host-function parameters are propagated"),
+    Rule("C18.H", shared(_c14.rule_b, "C14.B", "C18.H"), 14, "value-stack heights are only set from frame offsets (shared with C14.B)"),
     Rule("C18.N", rule_n, 1, "reserved names cannot be registered"),
     Rule("C18.B", rule_b, 3, "re-entry is frame balanced"),
 ]
